@@ -41,6 +41,7 @@ class Unit:
         self.mutants = []      # (func, pattern, repl)
         self.c_text = None
         self.errors = []
+        self.gen_meta = None
 
     def get(self, k, d=None):
         return self.hdr.get(k, d)
@@ -291,6 +292,11 @@ def build(path, mutate=None):
     with open(path) as f:
         text = f.read()
     u.c_text = '#include "tins_prelude.h"\n' + _expand(u, text, 0, mutate)
+    if u.hdr.get('funcs-json') and os.path.exists(path + '.json'):
+        import json
+        with open(path + '.json') as f:
+            u.gen_meta = json.load(f)
+        u.funcs = [dict(function=x['function'], file=x['file']) for x in u.gen_meta.get('functions', [])] + u.funcs
     if 'unit' not in u.hdr:
         u.hdr['unit'] = os.path.splitext(os.path.basename(path))[0]
     return u
